@@ -206,9 +206,9 @@ structure Inv (I0 t0 limit tmin tmax : Nat) (clk : Nat → Nat) (n : Nat) (s : S
           (s.intervalInstr * tmin ≤ min (limit / 10) (t0 + limit - s.lastCheck) + tmin ∧
             s.lastCheck < t0 + limit)
 
-theorem inv_init (F : TOps) (rate cap : UInt64) (limit t0 tmin tmax : Nat) (clk : Nat → Nat)
+theorem inv_init (F : TOps) (rate cap : UInt64) (maxI : Nat) (limit t0 tmin tmax : Nat) (clk : Nat → Nat)
     (hc : Costs clk t0 tmin tmax) :
-    Inv (new F rate cap limit t0).intervalInstr t0 limit tmin tmax clk 0 (new F rate cap limit t0) := by
+    Inv (new F rate cap maxI limit t0).intervalInstr t0 limit tmin tmax clk 0 (new F rate cap maxI limit t0) := by
   refine ⟨rfl, rfl, by simp [new], ?_, ?_, Or.inl ⟨rfl, rfl⟩⟩
   · simp [new]; exact hc.first_hi
   · simp [new]; exact hc.first_lo
@@ -251,16 +251,16 @@ theorem inv_step (F : TOps) (I0 t0 limit tmin tmax : Nat) (clk : Nat → Nat)
       exact adapt_bound s.intervalInstr (nextInterval F s (clk n)) (clk n - s.lastCheck)
         (min (limit / 10) (t0 + limit - clk n)) tmin (by omega) hsound
 
-theorem inv_run (F : TOps) (rate cap : UInt64) (limit t0 tmin tmax : Nat) (clk : Nat → Nat)
+theorem inv_run (F : TOps) (rate cap : UInt64) (maxI : Nat) (limit t0 tmin tmax : Nat) (clk : Nat → Nat)
     (hc : Costs clk t0 tmin tmax)
-    (hs : ∀ j, pollAt F clk (new F rate cap limit t0) j = .ok →
-      UpdateSound F (runN F clk j (new F rate cap limit t0) 0) (clk j)) :
-    ∀ n, (∀ j, j < n → pollAt F clk (new F rate cap limit t0) j ≠ .timeout) →
-      Inv (new F rate cap limit t0).intervalInstr t0 limit tmin tmax clk n
-        (runN F clk n (new F rate cap limit t0) 0) := by
+    (hs : ∀ j, pollAt F clk (new F rate cap maxI limit t0) j = .ok →
+      UpdateSound F (runN F clk j (new F rate cap maxI limit t0) 0) (clk j)) :
+    ∀ n, (∀ j, j < n → pollAt F clk (new F rate cap maxI limit t0) j ≠ .timeout) →
+      Inv (new F rate cap maxI limit t0).intervalInstr t0 limit tmin tmax clk n
+        (runN F clk n (new F rate cap maxI limit t0) 0) := by
   intro n
   induction n with
-  | zero => intro _; exact inv_init F rate cap limit t0 tmin tmax clk hc
+  | zero => intro _; exact inv_init F rate cap maxI limit t0 tmin tmax clk hc
   | succ n ih =>
     intro hnt
     have ihn := ih (fun j hj => hnt j (by omega))
@@ -284,5 +284,39 @@ theorem clk_lower (clk : Nat → Nat) (t0 tmin tmax : Nat) (hc : Costs clk t0 tm
   induction n with
   | zero => have := hc.first_lo; have := hc.pos; omega
   | succ n ih => have := hc.step_lo n; have := hc.pos; omega
+
+/-! ### run invariant behind `bounded_slack_capped` (no lower cost bound, no float hypothesis) -/
+
+theorem check_maxInterval (F : TOps) (s : St) (now : Nat) : (check F s now).1.maxInterval = s.maxInterval := by
+  rcases check_cases F s now with ⟨_, h⟩ | ⟨_, _, h⟩ | ⟨_, _, h⟩ <;> rw [h]
+
+/-- state before check number `n`, for a run whose consecutive checks are at most `tmax` apart -/
+structure InvC (M D tmax : Nat) (clk : Nat → Nat) (n : Nat) (s : St) : Prop where
+  dl : s.deadline = D
+  mx : s.maxInterval = M
+  le : s.sinceLast ≤ s.intervalInstr
+  cap : s.intervalInstr ≤ M
+  last : s.lastCheck ≤ D
+  hi : clk n ≤ s.lastCheck + (s.sinceLast + 1) * tmax
+
+theorem invC_step (F : TOps) (M D tmax : Nat) (clk : Nat → Nat)
+    (hstep : ∀ i, clk (i + 1) ≤ clk i + tmax) (n : Nat) (s : St)
+    (hi : InvC M D tmax clk n s) (hnt : (check F s (clk n)).2 ≠ .timeout) :
+    InvC M D tmax clk (n + 1) (check F s (clk n)).1 := by
+  have hhi := hstep n
+  rcases check_cases F s (clk n) with ⟨h1, h2⟩ | ⟨_, _, h2⟩ | ⟨h1, hd, h2⟩
+  · rw [h2]
+    refine ⟨hi.dl, hi.mx, by simp; omega, hi.cap, hi.last, ?_⟩
+    have := hi.hi
+    simp only
+    rw [show s.sinceLast + 1 + 1 = (s.sinceLast + 1) + 1 by rfl, Nat.succ_mul]
+    omega
+  · rw [h2] at hnt; simp at hnt
+  · rw [h2]
+    have hdl := hi.dl
+    refine ⟨hi.dl, hi.mx, by simp, ?_, ?_, ?_⟩
+    · simp only [nextInterval]; rw [hi.mx]; exact Nat.min_le_right _ _
+    · simp; omega
+    · simp; omega
 
 end KotoVerif.C08L
